@@ -71,6 +71,25 @@ pub fn model_discovered(spec: &WsSpec, excludes: &[String]) -> BTreeSet<String> 
         }
         out.insert(f.rel.clone());
     }
+    // plus the modules those files pull in (star imports, transitively)
+    loop {
+        let mut added = false;
+        for f in &spec.files {
+            if !out.contains(&f.rel) {
+                continue;
+            }
+            for it in &f.items {
+                if let Item::Star { target: Some(t), .. } = it {
+                    if spec.file(t).is_some() && out.insert(t.clone()) {
+                        added = true;
+                    }
+                }
+            }
+        }
+        if !added {
+            break;
+        }
+    }
     out
 }
 
@@ -115,6 +134,26 @@ fn gen_tree(rng: &mut Rng) -> WsSpec {
     }
     if !files.iter().any(|f| f.rel == "conftest.py") {
         files.push(PyFile { rel: "conftest.py".into(), items: vec![Item::Fixture(Fx { func: "shared".into(), ..Default::default() })] });
+    }
+    // helper modules pulled in by the root conftest only through imports (one of them transitively)
+    if rng.chance(500) {
+        let n = rng.range(2, 3);
+        let mut stars = vec![];
+        for h in 0..n {
+            let rel = format!("helpers_{}.py", h);
+            let mut items = vec![Item::Fixture(Fx { func: format!("helper_fx_{}", h), ..Default::default() })];
+            if h == 0 {
+                items.insert(0, Item::Star { module: "deep_helper".into(), target: Some("deep_helper.py".into()) });
+            }
+            files.push(PyFile { rel: rel.clone(), items });
+            stars.push(Item::Star { module: format!("helpers_{}", h), target: Some(rel) });
+        }
+        files.push(PyFile { rel: "deep_helper.py".into(), items: vec![Item::Fixture(Fx { func: "deep_fx".into(), ..Default::default() })] });
+        if let Some(c) = files.iter_mut().find(|f| f.rel == "conftest.py") {
+            for (i, st) in stars.into_iter().enumerate() {
+                c.items.insert(i, st);
+            }
+        }
     }
     let mut spec = WsSpec { files, ..Default::default() };
     if rng.chance(300) {
@@ -204,6 +243,10 @@ impl Scenario for Discover {
             if rng.chance(300) {
                 locations.push(vec!["home".into(), "user".into(), rng.pick(&hostile_names).to_string()]);
             }
+            if rng.chance(350) {
+                // the root directory itself is named like an ignored one
+                locations.push(vec!["work".into(), format!("={}", rng.pick(&hostile_names))]);
+            }
         }
         let mut sim = SimParams::gen(&mut rng, 3000);
         sim.max_steps = 20_000_000;
@@ -236,7 +279,9 @@ impl Scenario for Discover {
         let runs: Vec<(Vec<String>, bool)> = if self.faults { vec![(inp.locations[0].clone(), false), (inp.locations[0].clone(), true)] } else { inp.locations.iter().map(|l| (l.clone(), false)).collect() };
         for (loc, with_faults) in runs {
             let _ = std::fs::remove_dir_all(sb.root());
-            spec.ancestors = loc.clone();
+            // an element "=name" names the workspace root directory itself
+            spec.ancestors = loc.iter().filter(|a| !a.starts_with('=')).cloned().collect();
+            spec.root_name = loc.iter().find(|a| a.starts_with('=')).map(|a| a[1..].to_string());
             let root = spec.materialise(&sb.root());
             let mut hit = 0u64;
             if with_faults {
@@ -305,8 +350,15 @@ impl Scenario for Discover {
             // 2. relocation
             for (loc, files, snap) in results.iter().skip(1) {
                 if files != files0 {
-                    let ancestor_ignored = loc.iter().any(|a| is_ignored_dir(a));
-                    let class = if ancestor_ignored && files.len() < files0.len() { "RC-ANCESTOR-SKIP" } else { "relocation-changes-file-set" };
+                    let ancestor_ignored = loc.iter().any(|a| !a.starts_with('=') && is_ignored_dir(a));
+                    let root_ignored = loc.iter().any(|a| a.starts_with('=') && is_ignored_dir(&a[1..]));
+                    let class = if root_ignored && files.len() < files0.len() {
+                        "RC-ROOT-NAMED-LIKE-IGNORED"
+                    } else if ancestor_ignored && files.len() < files0.len() {
+                        "RC-ANCESTOR-SKIP"
+                    } else {
+                        "relocation-changes-file-set"
+                    };
                     out.violate(class, format!("the same tree indexes {:?} under {:?} but {:?} under {:?}", files0, loc0, files, loc));
                     continue;
                 }
@@ -323,8 +375,17 @@ impl Scenario for Discover {
             // symlink loops create a second path
             // (a later write through a dangling symlink creates its target; the index keys files by canonical path)
             let extra_ok: BTreeSet<String> = touched.iter().map(|t| format!("{}.loop", t)).chain(["no_such_target.py".to_string()]).collect();
+            // what must still be reachable when the faulted files contribute nothing (a module imported only
+            // through a faulted file is legitimately lost with it)
+            let mut degraded = inp.spec.clone();
+            for f in degraded.files.iter_mut() {
+                if touched.contains(&f.rel) {
+                    f.items.clear();
+                }
+            }
+            let still: BTreeSet<String> = model_discovered(&degraded, &inp.excludes);
             for f in files0.difference(files1) {
-                if !touched.contains(f) {
+                if !touched.contains(f) && (still.contains(f) || f.starts_with(".venv/") || f.starts_with("plugsrc/")) {
                     out.violate("fault-removes-other-file", format!("{} is indexed without faults but missing when {:?}/{:?} are faulted", f, inp.faults, inp.adversary));
                 }
             }
@@ -334,7 +395,7 @@ impl Scenario for Discover {
                 }
             }
             let strip = |s: &MapSnap| -> Vec<String> {
-                let keep = |l: &String| !touched.iter().any(|t| l.contains(t.as_str())) && !l.contains("no_such_target.py");
+                let keep = |l: &String| !touched.iter().any(|t| l.contains(t.as_str())) && !l.contains("no_such_target.py") && (still.iter().any(|f| l.contains(f.as_str())) || l.contains(".venv/") || l.contains("plugsrc/"));
                 s.definitions.iter().chain(s.usages.iter()).chain(s.imports.iter()).filter(|l| keep(l)).cloned().collect()
             };
             if strip(snap0) != strip(snap1) {
